@@ -269,6 +269,10 @@ func (ex *Executor) dispatchCall(st *State, fr *Frame, cc *ssa.CallCommon, fv Va
 	var fn *ssa.Function
 	var recvIface *Val
 	if cc.IsInvoke() {
+		if fv.T != nil && fv.T.IsNum() && fv.T.Num.Sign() == 0 {
+			// method call on an interface value that is the constant nil on this path
+			ex.safeObl(st, ins, "nil", tFalse, "method call on a nil interface is unreachable")
+		}
 		// context.Context.Done is native
 		key := ifaceMethodKey(cc)
 		if key == "context.Context.Done" {
